@@ -447,7 +447,7 @@ pub fn is_ascii_model(v: &[u8]) -> bool {
 // Recorders for `NtpPacket::nts_poll_message{,_v5}` (used by the *_timer harnesses): record what
 // `handle_timer` asks the request builder for (which cookie, how many cookies, which poll
 // exponent) and return a minimal packet (the plain poll message of the same version plus a request
-// identifier with a unique id taken from the ghost tape), so that the rest of `handle_timer`
+// identifier with a unique id taken from the ghost tape; NTPv4 format for both builders), so that the rest of `handle_timer`
 // (pending identifier, encoding, timer) runs on a packet without NTS fields. The real builders are
 // checked separately (c13_poll_message_*). Reason: `handle_timer` + real builder + encoder does not
 // fit (symex 337 s, 1.9 M steps, > 8 GB already with the encoder replaced).
@@ -500,7 +500,10 @@ where
     'a: 'a,
 {
     let uid = pm_record(cookie, new_cookies, poll_interval, true);
-    let (p, id) = NtpPacket::<'static>::poll_message_v5(poll_interval);
+    // also the NTPv4 plain message: with an NTPv5 packet the remainder of handle_timer (Bloom-filter
+    // request field + v5 encoder) makes the query 6x larger (942 k vs 148 k steps, > 8 GB); that tail
+    // is exercised with real NTPv5 packets by c14_poll_plain
+    let (p, id) = NtpPacket::<'static>::poll_message(poll_interval);
     let (t, _) = ntp_proto::verif::packet::request_identifier_parts(id);
     (p, ntp_proto::verif::packet::request_identifier(t, Some(uid)))
 }
